@@ -316,6 +316,29 @@ theorem ElemRd.selRef (env : Env F) (hcfg : env.lex.criSkipsComments = true) (ha
   simp only [hcri]
   simp
 
+/-- NUMBER elements (repaired `RealAggregate`: read with `ReadNumber`, integer spellings included) -/
+theorem ElemRd.number (env : Env F) (hcfg : env.lex.criSkipsComments = true) (hagg : env.cfg.aggrSkipsComments = true)
+    (hnum : env.cfg.numberElemReadsNumber = true)
+    (tok : List Byte) (dec : Decimal) (v : F) (htok : isReal tok = true ∨ isInteger tok = true) (hden : denoteReal tok = some dec)
+    (hv : env.ops.ofDecimal dec = some v) (hnn : env.ops.isRealNull v = false)
+    (before after : List Byte) (hb : Seps before) (ha : Seps after) :
+    ElemRd env .number { tok := tok, before := before, after := after, v := .atom (.real v) } := by
+  obtain ⟨c, u, hcu, hcs, _, h44, h41, h47, h92⟩ := number_head tok htok
+  refine ⟨hb, ⟨c, u, hcu, hcs, h47, h41, h92⟩, ?_⟩
+  intro l sk d rest hd
+  refine ⟨sk, Or.inl rfl, ?_⟩
+  have hr := readNumber_tok env.ops env.lex hcfg tok dec v htok hden hv l sk after ha d rest hd
+  show elemRead env .number (G l (tok ++ (after ++ d :: rest)) sk) = _
+  rw [hcu] at hr ⊢
+  simp only [List.cons_append] at hr ⊢
+  rw [elemRead_at_tok env hagg _ l c _ sk hcs h47 h44 h41 h92]
+  unfold elemReadCore
+  simp only [hnum, if_true, hr, bind, Except.bind, pure, Except.pure]
+  have hcri := cri_seps env.lex hcfg [] (Seps.blanks [] (by simp)) (after.reverse ++ ((c :: u).reverse ++ l)) rest d false sk .null hd
+  simp only [List.nil_append, List.reverse_nil] at hcri
+  rw [hcri]
+  simp [realValue, hnn, valueToAtom]
+
 /-! ## `SkipInstance` over a typed select value -/
 
 theorem selc_plain_of (ns : List Byte) (h : ns.all (fun c => selc c && plainc c) = true) : ns.all plainc = true := by
